@@ -984,6 +984,9 @@ def none_dereference(chk, c, rule):
                             kn2 = g.nodes.get(k)
                             if kn2 is not None and kn2.kind == 'test' and edge_implies(kn2.ast, lab2, neg[:1], pos):
                                 continue       # an edge that proves x is not None
+                            if kn2 is not None and kn2.kind == 'test' and k != nid and \
+                                    x in {z.id for z in ast.walk(kn2.ast) if isinstance(z, ast.Name)}:
+                                continue       # a later test that looks at x (directly or through a helper) may establish that it is set
                             work.append(d2)
     chk.ok(rule, 'branches that establish `x is None`: %d' % ntests, '', key='%s|scan' % rule)
     chk.floor('None-establishing branches examined', ntests, 40)
